@@ -19,8 +19,12 @@ Init == done = FALSE /\ \E s \in Sizes, c \in Cts, k \in Keys, i \in Issuers, r 
           /\ sd = "busy" => k = "k1" /\ r = "b1"
           /\ cfg = [size |-> s, ct |-> c, shape |-> sh, key |-> k, issuer |-> i, serial |-> r, sched |-> sd]
 (* the RSA signature value itself: the harness varies the content until the produced value begins with a zero octet (one in 256 does) *)
-SigInit == done = FALSE /\ \E c \in {"data", "other"}, k \in {"k1", "k2040", "k3072"} :
-             cfg = [size |-> 64, ct |-> c, shape |-> "octets", key |-> k, issuer |-> "i1", serial |-> "b1", sched |-> "alone", sig |-> "leadzero"]
+(* ... or until the whole SignedData is a multiple of 8 long and ends in a zero octet (what alignment padding looks like)                  *)
+SigInit == /\ done = FALSE
+           /\ \/ \E c \in {"data", "other"}, k \in {"k1", "k2040", "k3072"} :
+                    cfg = [size |-> 64, ct |-> c, shape |-> "octets", key |-> k, issuer |-> "i1", serial |-> "b1", sched |-> "alone", sig |-> "leadzero"]
+              \/ \E k \in {"k1", "k3072"} :
+                    cfg = [size |-> 64, ct |-> "other", shape |-> "octets", key |-> k, issuer |-> "i1", serial |-> "b1", sched |-> "alone", sig |-> "trailzero"]
 Next == ~done /\ done' = TRUE /\ UNCHANGED cfg
 Emit == done => PrintT(ToJson(cfg))
 =============================================================================
